@@ -1456,6 +1456,41 @@ def rule_graph_writers(F, R):
         if not ok:
             R.violation('random_graph_gen::main / L / dot header %s' % ' '.join('%s=%s' % kv for kv in ctx), 'L', 'dot output in mode %s must be wrapped in `%s` ... `}`; found %s' % (dict(ctx), h, hs))
 
+def rule_csv_records(F, R, crate_name):
+    """every line of the input is an edge: the csv reader is built with `has_headers(false)` (the default treats the first line as a header
+    and drops it), and the check on a record's width, where there is one, demands exactly two columns"""
+    c = F.crate(crate_name)
+    if c is None:
+        R.violation('%s / L / anchor' % crate_name, 'UNDECIDABLE', 'crate not found'); return
+    n = 0
+    for name, t in sorted(c.ithir.items()):
+        if '@inl' in name: continue
+        builders = [e for e in walk(t['body']) if e['k'] == 'Call' and (callee_name(e) or '') in ('csv::ReaderBuilder::new',)]
+        direct = [e for e in walk(t['body']) if e['k'] == 'Call' and (callee_name(e) or '') in ('csv::Reader::from_reader', 'csv::Reader::from_path')]
+        hh = [e for e in walk(t['body']) if e['k'] == 'Call' and (callee_name(e) or '') == 'csv::ReaderBuilder::has_headers']
+        if not builders and not direct and not hh: continue
+        n += 1
+        ok = not direct and len(hh) >= 1 and all(len(e['args']) == 2 and strip(e['args'][1]).get('value') is False for e in hh)
+        R.count('L:csv-readers'); R.obligation(ok, 'L csv headers ' + name)
+        if not ok:
+            R.violation('%s / L / first line of the input' % name.split('::{closure')[0], 'L', 'the csv reader must be built with has_headers(false): otherwise the first edge of the input is taken for a header and dropped', (hh or builders or direct)[0].get('loc'))
+        # width check: `assert!(record.len() == 2)` / `assert_eq!(record.len(), 2)`: an `if` whose failing branch panics
+        for e in walk(t['body']):
+            if e['k'] != 'If' or e['cond']['k'] == 'Let': continue
+            if not any(x['k'] == 'Call' and (callee_name(x) or '').startswith(('core::panicking', 'std::rt::panic', 'std::rt::begin_panic')) for x in walk(e['then'])): continue
+            cnd = strip(e['cond']); neg = False
+            while cnd['k'] == 'Unary' and cnd['op'] == 'Not': cnd = strip(cnd['arg']); neg = not neg
+            lens = [x for x in walk(cnd) if x['k'] == 'Call' and (callee_name(x) or '').split('::')[-1] == 'len' and 'csv::' in str((x['args'][0].get('ty') or {}).get('s'))] if cnd['k'] in ('Binary', 'Call') else []
+            if not lens: continue
+            # the test that lets a record *through* is `len == 2`: the panic branch runs under its negation
+            op = cnd.get('op') if cnd['k'] == 'Binary' else ('Eq' if (callee_decl(cnd) or '').endswith('::eq') else 'Ne' if (callee_decl(cnd) or '').endswith('::ne') else None)
+            two = any(x['k'] == 'Literal' and str(x.get('value')) == '2' for x in walk(cnd))
+            passes_on_eq = (op == 'Eq' and neg) or (op == 'Ne' and not neg)
+            okw = two and passes_on_eq
+            R.count('L:csv-width-checks'); R.obligation(okw, 'L csv width ' + name)
+            if not okw: R.violation('%s / L / width of a record' % name.split('::{closure')[0], 'L', 'the width check of a record must let exactly the two-column records through', e.get('loc'))
+    if n == 0: R.violation('%s / L / csv reader / VACUITY' % crate_name, 'VACUITY', 'no csv reader found in %s' % crate_name)
+
 def rule_colour_vertices(F, R):
     """C18 --colors: one product vertex `<v>_c<k>` per input vertex v and colour k in 0..N, mapped back to (v, k); N is the number given on the command line"""
     import engine_u
